@@ -242,4 +242,17 @@ def updateSymbolInfoByLength (T : List SymbolInfo) (cur : Option SymbolInfo) (le
   | some s => if len > s.dataCapacity then symbolLookup T len shape minSize maxSize true else .ok (some s)
   | none => symbolLookup T len shape minSize maxSize true
 
+/-- The symbol `DataMatrixWriter.Encode` renders for a message of `k` codewords:
+    `EncodeHighLevel` settles on `SymbolInfo_Lookup(k, shape, min, max, fail=true)` and pads the
+    codewords to that symbol's capacity; the writer then looks the padded length up AGAIN with the
+    same shape and size constraints (error ignored: a nil symbol would be dereferenced). -/
+def writerSymbol (T : List SymbolInfo) (k : Nat) (shape : Shape) (minSize maxSize : Option (Nat × Nat)) :
+    Res SymbolInfo := do
+  let first ← match ← symbolLookup T k shape minSize maxSize true with
+    | some s => pure s
+    | none => .error (.panic "nil symbol")
+  match lookupLoop first.dataCapacity shape minSize maxSize T with
+  | some s => pure s
+  | none => .error (.panic "nil symbolInfo dereferenced")
+
 end Gzx.QRVersionChoice
